@@ -179,6 +179,12 @@ def measurement_exprs(rng, quick):
                     "-(-(2 %s))" % a, "-(2 %s) + 2 %s" % (a, a), "(1+i) * 2 %s - (1+i) * 2 %s" % (a, a)]
             out += ["6 %s %% 2" % a, "6 %s ^ 2" % a, "√(4 %s)" % a, "(3 %s)!" % a, "|3 %s|" % a, "⌈3.5 %s⌉" % a, "⌊3.5 %s⌋" % a,
                     "2 %s * 3 %s" % (a, a), "2 %s / 3 %s" % (a, a), "(2 %s)" % a, "2 %s + 1" % a, "1 - 2 %s" % a]
+    for kind, base in (("distance", "m"), ("mass", "kg"), ("storage", "B")):
+        for u in gen.TARGET_UNITS[kind]:
+            out += ["1 %s + 1 %s" % (u, base), "1 %s - 1 %s" % (base, u), "(3 %s * 2) as %s" % (u, base), "8 %s - 1 %s" % (u, u), "1 %s / 1 %s" % (u, base) if False else "2 %s + 2 %s" % (u, u)]
+    for a_, b_ in [("3kg", "500g"), ("1m", "2m"), ("5km", "5m"), ("2.5KiB", "512B"), ("1e3mg", "1g"), ("7lb", "3oz")]:
+        out += ["%s-%s" % (a_, b_), "%s -%s" % (a_, b_), "%s- %s" % (a_, b_), "%s+%s" % (a_, b_), "(%s-%s) as %s" % (a_, b_, "mm" if a_.endswith("m") and not a_.endswith("km") else "g" if "g" in a_ else "B" if "B" in a_ else "m" if "km" in a_ else "oz"),
+                "f(%s-%s)" % (a_, b_), "-%s" % a_, "-%s+%s" % (a_, b_), "2*%s-%s" % (a_, b_), "%s*2-%s" % (a_, b_), "%s/2-%s" % (a_, b_)]
     near = [("1000000000000.5 B", "1 TB"), ("2000.000000001 kg", "2 t"), ("1000.0000000001 m", "1 km"), ("1.0000000000001 km", "1000 m"), ("1000000.0000001 mg", "1 kg"),
             ("1024.0000000001 KiB", "1 MiB"), ("100.00000000001 cm", "1 m"), ("1e12 nm + 0.001 nm", "1 km"), ("1000.0000000001 m", "1000 m"), ("1 km", "1000 m"), ("1 km", "999.9999999999 m")]
     for a_, b_ in near:
@@ -376,6 +382,8 @@ HIST_EXTRA = ["delete s(a)", "delete s", "h = sin", "f(x) = x * 2", "f(1) = 1", 
               "hh = h", "hh(a) = 3", "delete hh(a)", "delete hh", "hh", "hh(1)", "h = hh", "f = h", "x = f", "x = sin", "f = x", "f = [1,2]", "f = 2 km", "f(a) = a; f(a) = a",
               "f(a) = 1; f(a) = 2; f(a) = 3", "f(a) = 1; f(p) = 2; f(q) = 3; f", "delete f(a); delete f(a)", "clear; clear", "x = 1; x = 1", "h = f; h = f",
               "f(a) = a; h = f; hh = h; delete hh(a); f; h", "f(a) = a; f(a, k) = k; h = f; delete h(a); delete h(a, k); h; f", "x = x", "f = f", "h = h; h(a) = 9; h",
+              "gg(0) = 0; gg(n) = n * gg(n - 1); gg(0) = 1; gg(5)", "gg(0) = 1; gg(n) = n * gg(n - 1); gg(n) = n * gg(n - 1); gg(3)",
+              "f(a) = 1; f(a, k) = 2; f(a, k, q) = 3; f(1, 2); delete f(u, v); delete f(u, v)", "delete f()", "delete x()", "delete s()", "delete sin()", "f(); x(); s()",
               "é = 2", "é(a) = a", "é", "ünï_1 = é", "delete é", "f(é) = é * 2", "f(2)", "x = 3 m; x = x as cm; x", "x = [1,2;3,4]; x = x * x; x", "x = f; x(a) = 0; f"]
 
 
